@@ -139,6 +139,16 @@ pub fn check_history(ctx: &mut Ctx, start: &Pos, src: &mut MoveSource, max_plies
         m.push_move(mv);
         *counts.entry(gen::rep_key(&m.pos)).or_insert(0) += 1;
         moves.push(mv);
+        // unanswered draw offers now and then (a pure function of start and ply, so a replay
+        // repeats them): they are actions in the log but neither moves nor grounds for a claim
+        let h = fp(&(start, moves.len(), "offer"));
+        if h % 6 == 0 && m.result().is_none() {
+            let c = if (h >> 8) & 1 == 0 { Col::W } else { Col::B };
+            if g.offer_draw(bridge::col(c)) {
+                m.log.push(Act::Offer(c));
+                ctx.count("draw_offers_in_log", 1);
+            }
+        }
     }
     if max_rev >= 90 {
         ctx.class("history:>=90-reversible-half-moves");
@@ -193,7 +203,7 @@ pub fn run(cfg: &Cfg) -> i32 {
     engine::finish(
         report,
         EvidenceSpec {
-            rule: "cases = game histories of 100-260 half-moves played inside a Game under policies that avoid pawn moves and captures (never creating a third occurrence / seeking repetitions / plain reversible; 1 ply in 32 is unconstrained), from positions with castling rights to lose, bare-piece endgames, the initial position and generated valid positions; after every half-move can_declare_draw() is compared with the draw model (no result, and >= 3 occurrences of the current position in the whole game or >= 100 half-moves without pawn move or capture) and declare_draw() on a copy of the game must return the same answer, append DeclareDraw / set DrawDeclared / refuse all further actions on success and change nothing on refusal. evaluations = query points. Non-trivial = history with >= 90 consecutive reversible half-moves, a threefold occurrence, or a castling right lost inside a counted stretch of >= 20; distinct = history fingerprints.".into(),
+            rule: "cases = game histories of 100-260 half-moves played inside a Game under policies that avoid pawn moves and captures (never creating a third occurrence / seeking repetitions / plain reversible; 1 ply in 32 is unconstrained), with unanswered draw offers interleaved (about one half-move in six), from positions with castling rights to lose, bare-piece endgames, the initial position and generated valid positions; after every half-move can_declare_draw() is compared with the draw model (no result, and >= 3 occurrences of the current position in the whole game or >= 100 half-moves without pawn move or capture) and declare_draw() on a copy of the game must return the same answer, append DeclareDraw / set DrawDeclared / refuse all further actions on success and change nothing on refusal. evaluations = query points. Non-trivial = history with >= 90 consecutive reversible half-moves, a threefold occurrence, or a castling right lost inside a counted stretch of >= 20; distinct = history fingerprints.".into(),
             assumptions: vec![
                 "position identity is computed twice (strict: en-passant state recorded; FIDE: en-passant only when a capture is legal); points where the two disagree are counted and not asserted".into(),
                 "reference rules engine and game model".into(),
